@@ -288,7 +288,7 @@ class Expander:
         fn = copy.deepcopy(fn) if depth == 0 else fn
         closures = {}
         body = []
-        known_inner = self.known_nested.get((cls + '.' if cls else '') + fn.name, set()) if depth == 0 else set()
+        known_inner = self.known_nested.get((cls + '.' if cls else '') + fn.name, set()) if depth == 0 and not getattr(self, 'inline_all_nested', False) else set()
         for st in fn.body:
             if isinstance(st, ast.FunctionDef) and st.name not in known_inner and self.have_inventory:
                 closures[st.name] = st
